@@ -12,6 +12,7 @@ import math
 import os
 import re
 
+import random
 import numpy as np
 import pandas as pd
 
@@ -77,6 +78,22 @@ def _second_stage(rng, names, full):
 VARIANTS = ["plain", "plain", "nested", "shared", "shared", "double", "roundtrip", "notrade", "mult", "fi", "fi", "flows", "spread"]
 
 
+def gen_churn_case(rng):
+    """a cost-free book that turns over every day (names enter and are closed out completely on consecutive dates): the run's
+    transaction list then holds, for a coarser timeline, windows with several fills of one name - some netting to exactly zero"""
+    spec = R.gen_run_spec(rng, nested=False, T=rng.randint(8, 16))
+    _strip_flows(spec)
+    tickers = spec["tickers"]
+    spec["comm"] = [0, 0, 0]
+    spec.pop("bidoffer", None)
+    spec["tree"]["kids"] = []
+    spec["tree"]["tickers"] = list(tickers)
+    spec["tree"]["stack"] = [["RunDaily", True, False, False], ["SelectAll"], ["SelectRandomly", rng.randint(1, max(1, len(tickers) - 1)), rng.randint(0, 10 ** 6)],
+                             ["WeighEqually"], ["Rebalance"]]
+    _fresh_prices(rng, spec)
+    return {"kind": "gen", "variant": "churn", "spec": spec, "read_order": None, "coarse_seed": rng.randint(0, 10 ** 6)}
+
+
 def gen_case(rng, variant=None):
     v = variant or rng.choice(VARIANTS)
     if v == "fi":
@@ -130,7 +147,8 @@ def gen_case(rng, variant=None):
                 if isinstance(kd, dict):
                     peek(kd)
         peek(spec["tree"])
-    return {"kind": "gen", "variant": v, "spec": spec, "read_order": rng.randint(0, 10 ** 6) if rng.random() < 0.7 else None}
+    return {"kind": "gen", "variant": v, "spec": spec, "read_order": rng.randint(0, 10 ** 6) if rng.random() < 0.7 else None,
+            "coarse_seed": rng.randint(0, 10 ** 6)}
 
 
 # ------------------------------------------------------------------------------------------------ real run
@@ -800,6 +818,68 @@ def replay_clause(bt, case, run, h, rep, log):
     return out, info
 
 
+def replay_coarse_clause(bt, case, run, h, tx, cls, rng_seed):
+    """The run's transaction list replayed over a COARSER timeline (a subset of the run's dates that keeps the last one): every listed
+    trade is executed in the window of the kept date on or after its stamp, at its listed price, so on the kept dates positions and
+    values are the original's.  Only runs without any of the replay clause's known excuses, without bid/offer data and without
+    commissions (a commission is a function of each single trade either way, but keeping the clause to cost-free lists makes the
+    expected cash a plain sum over the listed rows).  Returns a list of violations."""
+    spec = case["spec"]
+    if case["kind"] != "gen" or cls or spec.get("bidoffer") or spec["comm"][0] != 0 or run["b"].strategy.bankrupt:
+        return [], "skipped"
+    data = run["data"]
+    n = len(data.index)
+    if n < 4 or tx is None or len(tx) == 0:
+        return [], "skipped"
+    rng = random.Random(rng_seed)
+    k = rng.choice([2, 3, 5])
+    off = 0     # the first date is always kept: rows stamped at or before the replay's synthetic first row would never be executed
+    keep = sorted(set(range(off, n, k)) | {n - 1})
+    if len(keep) == n:
+        return [], "skipped"
+    data2 = data.iloc[keep]
+    c = bt.core
+    kids = []
+    seen = set()
+    for nd in h["nodes"]:
+        if nd["sec"] and nd["short"] not in seen:
+            seen.add(nd["short"])
+            kids.append(getattr(c, nd["cls"])(nd["short"], multiplier=nd["mult"]))
+    kids.sort(key=lambda x: x.name)
+    s2 = bt.Strategy(run["b"].strategy.name, algos=[bt.algos.ReplayTransactions("transactions")], children=kids)
+    out = []
+    try:
+        b2 = bt.Backtest(s2, data2, initial_capital=spec["capital"], integer_positions=spec["integer"],
+                         additional_data={"transactions": tx, "bidoffer": {}}, progress_bar=False)
+        b2.run()
+    except Exception as e:  # noqa
+        return [("C18/replay-coarse:raised:%s" % type(e).__name__, "replaying the list on every %d-th date raised %s: %s" % (k, type(e).__name__, str(e)[:200]))], "raised"
+    if b2.strategy.bankrupt:
+        return [], "liquidated"
+    p1, p2 = run["b"].positions, b2.positions
+    v1, v2 = run["b"].strategy.values, b2.strategy.values
+    scale = max(1.0, float(np.max(np.abs(np.asarray(v1.values, dtype=float)))))
+    multi = 0
+    for j, d in enumerate(data2.index):
+        lo = data2.index[j - 1] if j else None
+        stamps = tx.index.get_level_values(0)
+        win = tx[(stamps <= d) & ((stamps > lo) if lo is not None else True)]
+        if len(win) and win.index.get_level_values(1).duplicated().any():
+            multi += 1
+        for kname in sorted(seen):
+            a1 = float(p1[kname].loc[d]) if kname in p1.columns else 0.0
+            a2 = float(p2[kname].loc[d]) if kname in p2.columns else 0.0
+            if abs(a1 - a2) > 1e-9 * max(1.0, abs(a1)):
+                out.append(("C18/replay-coarse:positions", "list replayed on every %d-th date (+%d): %s on %s holds %r, the original run %r" % (k, off, kname, d.date(), a2, a1)))
+                return out, "judged"
+        x1, x2 = float(v1.loc[d]), float(v2.loc[d])
+        if not abs(x1 - x2) <= 1e-9 * scale:
+            out.append(("C18/replay-coarse:values", "list replayed on every %d-th date (+%d): value on %s is %r, the original run's %r (%d windows so far held several trades of one name)"
+                        % (k, off, d.date(), x2, x1, multi)))
+            return out, "judged"
+    return out, "judged:multi" if multi else "judged"
+
+
 def replay_request(bt, case, h, b2, tx, nid):
     """`report replay` request for the real replay backtest `b2` (market-value root, plain securities), or None"""
     spec = case["spec"]
@@ -922,6 +1002,9 @@ def judge(ctx, bt, cases, corr="report", do_replay=True):
                 v, info = replay_clause(bt, case, run, h, rep, log)
                 found += v
                 ctx.count("replays-run")
+                v2, how = replay_coarse_clause(bt, case, run, h, rep.get("transactions"), cls, case.get("coarse_seed", 0))
+                found += v2
+                ctx.count("replay-coarse:" + how)
             except Exception as e:  # noqa
                 ctx.count("replay-could-not-evaluate:" + type(e).__name__)
                 ctx.disagreement(corr + ":replay-could-not-evaluate", {"error": repr(e)[:300]}, rd)
@@ -999,6 +1082,9 @@ def run(ctx, bt):
     n = ctx.scale(320, 4000)
     cases = [gen_case(ctx.rng, VARIANTS[i % len(VARIANTS)] if i < 2 * len(VARIANTS) else None) for i in range(n)]
     judge(ctx, bt, cases, corr="report")
+    # the clause "replaying a run's transaction list reproduces its positions and values" on a coarser timeline (several fills of a
+    # name inside one replay window, round trips included): cost-free books that turn over daily
+    judge(ctx, bt, [gen_churn_case(ctx.rng) for _ in range(ctx.scale(30, 400))], corr="report:daily-churn")
     # ReplayTransactions / SimulateRFQTransactions as whole programs (`Bt.Prog.progRunR`, the subject of `C18.replay_positions`):
     # complete backtests, every node history compared with the model bit for bit
     from .. import whole_run_r as WR
